@@ -18,11 +18,17 @@ def run_one(m, tier):
     d = Path(tempfile.mkdtemp(prefix="sweetpea-verif-mut-", dir="/var/tmp"))
     try:
         shutil.copytree(REPO / "sweetpea", d / "sweetpea", ignore=shutil.ignore_patterns("__pycache__"))
-        f = d / m["file"]
-        src = f.read_text()
-        if src.count(m["old"]) != 1:
-            return m["id"], "BROKEN-MUTANT", f"pattern occurs {src.count(m['old'])} times"
-        f.write_text(src.replace(m["old"], m["new"]))
+        if "revert" in m:       # the mutant is the tree without one of the fix: commits
+            diff = subprocess.run(["git", "-C", str(REPO), "diff", m["revert"] + "^", m["revert"], "--", "sweetpea"], capture_output=True, text=True).stdout
+            r = subprocess.run(["patch", "-R", "-p1", "-s", "-d", str(d)], input=diff, capture_output=True, text=True)
+            if r.returncode != 0:
+                return m["id"], "BROKEN-MUTANT", (r.stdout + r.stderr)[-300:]
+        else:
+            f = d / m["file"]
+            src = f.read_text()
+            if src.count(m["old"]) != 1:
+                return m["id"], "BROKEN-MUTANT", f"pattern occurs {src.count(m['old'])} times"
+            f.write_text(src.replace(m["old"], m["new"]))
         env = dict(os.environ, VERIF_REPO=str(d), VERIF_OUT=str(d / "out"))
         t = time.time()
         r = subprocess.run([str(ROOT / "vcheck"), m["property"], tier], capture_output=True, text=True, env=env, timeout=3600)
